@@ -1026,7 +1026,7 @@ def c03(R, ctx):
 @runner("C09")
 def c09(R, ctx):
     C = Cases(R.rng, ctx["tier"])
-    streams = C.streams(n=60, maxpairs=4 if ctx["tier"] == "quick" else 8)
+    streams = C.regress("C09", "stream") + C.streams(n=60, maxpairs=4 if ctx["tier"] == "quick" else 8)
     reqs = ["stream9 " + ",".join(h(p) for p in s[3]["parts"]) for s in streams]
     res = common.run_impl("impl_worker", reqs)
     ok = 0
@@ -1147,12 +1147,26 @@ def c15(R, ctx):
         ev_reqs.append("fevents swtpm 1 S " + h(st)); ev_ref.append(data); ev_meta.append(("swtpm", st))
         ev_reqs.append("fevents auto 1 S " + h(data)); ev_ref.append(data); ev_meta.append(("auto-binary", data))
         # pcapng: mssim trailer on responses, runts in between
+        # also: packets cut short (size field beyond the payload: continued in the next segment / snaplen),
+        # trailers of other lengths
         pl, carried = [], b""
         for i, m in enumerate(parts):
             if R.rng.random() < 0.25:
                 pl.append(bytes(R.rng.randrange(256) for _ in range(R.rng.randrange(0, 10))))
-            pl.append(m + (b"\x00\x00\x00\x00" if (i % 2 == 1 and R.rng.random() < 0.5) else b""))
-            carried += m
+            u = R.rng.random()
+            if u < 0.2 and len(m) > 10:
+                k = R.rng.randrange(10, len(m))
+                pl.append(m[:k])
+                if R.rng.random() < 0.5:
+                    pl.append(m[k:])
+            elif u < 0.3:
+                pl.append(m + bytes(R.rng.randrange(256) for _ in range(R.rng.randrange(1, 13))))
+            else:
+                pl.append(m + (b"\x00\x00\x00\x00" if (i % 2 == 1 and R.rng.random() < 0.5) else b""))
+        for q in pl:
+            if len(q) >= 10:
+                size = int.from_bytes(q[2:6], "big")
+                carried += q[:size] if size < len(q) else q
         pls = ",".join(h(p) for p in pl)
         fe_reqs.append("fe pcap " + pls); fe_meta.append(("pcap", pls, carried))
         ev_reqs.append("fevents pcap 1 S " + pls); ev_ref.append(carried); ev_meta.append(("pcap", pls))
@@ -1292,10 +1306,12 @@ def tiling_check(ctx, inp, events, outcome):
                 if start is None:
                     return ("warning-region-unknown", "warning names size field %s which was not shown" % cpath)
                 end = start + int(cmax)
-                if end >= pos:
+                cur = pos if expect is None else max(pos, expect[0])
+                if end >= cur:
                     expect = (end, kind)
                 # else: the declared end lies behind the bytes already shown (size smaller than the header
-                # itself): there is nothing to resume at, decoding continues in place
+                # itself) or already skipped as the reported tail of an inner region whose own size field
+                # contradicts this one: there is nothing to resume at, decoding continues in place
             elif kind == "S":
                 surplus = b"" if f[2] == "-" else bytes.fromhex(f[2])
             elif kind == "D":
@@ -1316,7 +1332,7 @@ def tiling_check(ctx, inp, events, outcome):
 def c08(R, ctx):
     C = Cases(R.rng, ctx["tier"])
     base = C.wellformed(per_type=1, per_cc=1, corpus_n=50)
-    cases = []
+    cases = C.regress("C08")
     vcases = []
     for b in R.rng.sample(base, min(len(base), 420)):
         sf = C.size_faults(b, per=2)
@@ -1564,6 +1580,21 @@ def c19(R, ctx):
             fo = R.rng.choice(["pretty", "events", "binary"])
             reqs.append("cliexp binary %s %s - %s" % (fo, tname, path))
             meta.append((["convert", "--in", "binary", "--out", fo, "--type", tname, path], path))
+        # files whose first / last bytes look like text line breaks or blanks (the reader must not strip them)
+        edge = [("UINT16", b"\x00\x0a"), ("UINT16", b"\x0d\x0a"), ("UINT32", b"\x0a\x20\x09\x0d"), ("UINT16", b"\x20\x20"),
+                ("TPM2B_DIGEST", b"\x00\x02\x0d\x0a"), ("UINT64", b"\x0a" * 8)]
+        for k, (tname, content) in enumerate(edge if ctx["tier"] != "quick" else R.rng.sample(edge, 3)):
+            path = os.path.join(tmp, "edge_%d" % k)
+            open(path, "wb").write(content)
+            fo = R.rng.choice(["pretty", "events", "binary"])
+            reqs.append("cliexp binary %s %s - %s" % (fo, tname, path))
+            meta.append((["convert", "--in", "binary", "--out", fo, "--type", tname, path], path))
+        path = os.path.join(tmp, "edge_getrandom")
+        open(path, "wb").write(bytes.fromhex("80010000000c0000017b000a"))
+        for fi in ("binary", "auto"):
+            fo = R.rng.choice(["pretty", "events", "binary"])
+            reqs.append("cliexp %s %s - - %s" % (fi, fo, path))
+            meta.append((["convert", "--in", fi, "--out", fo, path], path))
         ccnames = {m["v"]: m["name"] for m in ctx["tables"]["prims"]["TPM_CC"]["kind"]["ms"] if m["k"] == "const"}
         for _ in range(2 if ctx["tier"] == "quick" else 12):
             c, ci, r, ri = C.G.pair()
@@ -1628,6 +1659,7 @@ def c19(R, ctx):
             path = os.path.join(tmp, "ty_" + c[1].split(":")[2])
             open(path, "wb").write(c[2])
             tfiles.append(("bin", ["binary"], path))
+        tfiles.append(("bin", ["binary"], os.path.join(tmp, "edge_getrandom")))
         texp = common.run_impl("impl_worker", ["typeexp binary %s" % f[2] for f in tfiles], nproc=4)
         for f, e in zip(tfiles, texp):
             rc, out, err = run_cli(["type", "--in", "binary", f[2]])
